@@ -276,9 +276,13 @@ func main() {
 		// The reader may carry state from one call to the next in the same process
 		// (a pooled buffer, a counter): a case that needs such history is replayed by
 		// repeating the same input; a violation on any repetition is genuine.
-		r.Watch(127, c.Src)
 		defer r.WatchDone(127)
-		for i := 0; i < 12000; i++ {
+		reps := 12000
+		if len(c.Src) > 1000 {
+			reps = 200 // long inputs: each evaluation is expensive
+		}
+		for i := 0; i < reps; i++ {
+			r.Watch(127, c.Src) // per evaluation: the watchdog times one call, not the loop
 			if vs, _ := checkSrc(c.Src); len(vs) > 0 {
 				if c.Key != "" {
 					vs = vs[:1]
